@@ -893,6 +893,7 @@ func TestVerifC18_Regress_BaseAcceptErrorWhilePending(t *testing.T) {
 				_ = l.Close()
 			}
 			_ = cli.Close()
+			_ = base.Close()
 			synctest.Wait()
 		})
 		st.Case(true, fmt.Sprintf("%02x", fb), []string{"regress"}, func() string { return fmt.Sprintf("listen conn(%02x) basefail", fb) })
@@ -922,6 +923,13 @@ func TestVerifC18_Regress_AcceptDuringShutdown(t *testing.T) {
 				l, _ = mux.ListenHTTP()
 			}
 			synctest.Wait()
+			// mainLoop only starts watching a sub-listener's closeChan on its next iteration: if it
+			// entered its select before the Listen call above, Close would go unnoticed until the
+			// next connection. Make it iterate once with a throw-away connection.
+			nudge, nsrv := v18NewPair("n", "127.0.0.1:39999", "127.0.0.1:1080")
+			_ = nudge.Close()
+			base.inject(nsrv)
+			synctest.Wait()
 			cli, srv := v18NewPair("p", "127.0.0.1:40000", "127.0.0.1:1080")
 			_, _ = cli.Write([]byte{fb, 1, 2, 3})
 			base.mu.Lock()
@@ -933,6 +941,7 @@ func TestVerifC18_Regress_AcceptDuringShutdown(t *testing.T) {
 				fail = fmt.Sprintf("history: Listen ; last sub-listener Close coinciding with an incoming connection (first byte %02x): base.Accept returned it (accepted=%d) but it was neither delivered nor closed", fb, base.accepted)
 			}
 			_ = cli.Close()
+			_ = base.Close()
 			synctest.Wait()
 		})
 		st.Case(true, fmt.Sprintf("%02x", fb), []string{"regress"}, func() string { return fmt.Sprintf("listen close||conn(%02x)", fb) })
